@@ -77,16 +77,26 @@ INCREF_TXT = re.compile(r'\b(?:__Pyx_X?INCREF|Py_X?INCREF)\s*\(\s*\0(\d+)\0\s*\)
 PP = re.compile(r'^\s*#\s*(if|ifdef|ifndef|elif|else|endif)\b')
 
 
+# eighth round: the error-exit emitters of CCodeWriter, derived from Code.py by s8C35.error_api (put_error_if_neg, put_error_if_unbound, ... besides error_goto*);
+# filled in by rules(ctx); None = the name prefix only (analysis helpers called without a context)
+ERROR_EXIT_API = None
+
+
 def _fallible(call):
     """-> 'goto' | 'child' | None"""
     f = call.func
     if not isinstance(f, ast.Attribute):
         return None
-    if _is_code(f.value) and f.attr.startswith('error_goto'):
+    if _is_code(f.value) and (f.attr in ERROR_EXIT_API if ERROR_EXIT_API is not None else f.attr.startswith('error_goto')):
         return 'goto'
     if f.attr in (CHILD_ALL | CHILD_ERR) and _passes_code(call) and not (isinstance(f.value, ast.Name) and f.value.id == 'self'):
         return 'child'
     return None
+
+
+def _null_test(call, t):
+    from . import s8C35
+    return s8C35.is_null_test(call, t)
 
 
 def _mentions(call, key):
@@ -305,7 +315,7 @@ def setup_analyse(fn):
                     if x[0] != 'own':
                         continue
                     t = x[1]
-                    if _mentions(call, t):
+                    if _mentions(call, t) and (why != 'goto' or _null_test(call, t)):
                         continue          # the NULL test of the temp itself / the temp is handed to the child, which then answers for it
                     if stmt_child and temps[t]:
                         s.discard(x)          # hand-over to the sub-tree (not decided)
@@ -320,6 +330,12 @@ def setup_analyse(fn):
                     else:
                         s.add(('owe', t, lab))
                 continue
+            if isinstance(f.value, ast.Name) and f.value.id == 'self' and _passes_code(call):
+                # eighth round: the temp handed to a helper method of the node together with `code` (an extracted release): not decided here
+                for x in list(s):
+                    if x[0] == 'own' and _mentions(call, x[1]):
+                        s.discard(x)
+                        infos.add('%s: %s is handed to the helper %s; its release is not decided' % (fn.name, x[1], node_src(f, 40)))
             if not _is_code(f.value):
                 # a label handed to something unknown: its placement is not visible here
                 for a in list(call.args) + [k.value for k in call.keywords]:
@@ -405,4 +421,7 @@ def rule_setup(ctx):
 
 
 def rules(ctx):
+    global ERROR_EXIT_API
+    from . import s8C35
+    ERROR_EXIT_API = set(s8C35.error_api(ctx))
     return [rule_borrow(ctx), rule_setup(ctx)]
